@@ -7,7 +7,7 @@ from typing import Callable, Dict, List, Optional, Set, Tuple
 from ..astutil import call_name, calls_in, kwarg, store_targets, unparse
 from ..cfg import CFG, CNode, Edge, LocalDefs, path_text
 from ..index import AnalysisError, ClassInfo, FuncInfo, Index
-from ..inventory import call_sites, recv_class, stores_to_attr
+from ..inventory import only_called_from, call_sites, recv_class, stores_to_attr
 from ..purity import PURE_BUILTINS, is_logging_call
 from ..report import Ctx
 from ..reqtree import RequestTree
@@ -292,7 +292,7 @@ def r13_1(ctx: Ctx, svc_uni: Set[str], app_uni: Set[str]) -> None:
         if kind != "software":
             continue
         n_store += 1
-        ok = s.owner in SW_STATE_WRITERS
+        ok = s.owner in SW_STATE_WRITERS or bool(only_called_from(ix, s.fn, SW_STATE_WRITERS))
         ctx.record("R13.1", f"{s.path}::{s.owner}::store operating_state = {vtxt[:50]}", s.where, ok,
                    SW_STATE_WRITERS.get(s.owner, "writer of a software lifecycle state outside the lifecycle methods"))
     ctx.floor("R13.1", "stores to a service's/application's operating_state", n_store, 13)
